@@ -378,6 +378,8 @@ type podView struct {
 	Term  bool   `json:"terminating"`
 	Ns    string `json:"ns"`
 	Eds   string `json:"eds"`
+	// the pod carries the canary label
+	CanaryLabel bool `json:"canaryLabel"`
 }
 
 type clusterView struct {
@@ -402,7 +404,8 @@ func (w *simWorld) view(ns, edsName string) clusterView {
 			}
 		}
 		v.Pods = append(v.Pods, podView{podNodeBinding(p), p.Annotations[edsv1.MD5ExtendedDaemonSetAnnotationKey], ready, string(p.Status.Phase),
-			p.DeletionTimestamp != nil, p.Namespace, p.Labels[edsv1.ExtendedDaemonSetNameLabelKey]})
+			p.DeletionTimestamp != nil, p.Namespace, p.Labels[edsv1.ExtendedDaemonSetNameLabelKey],
+			p.Labels[edsv1.ExtendedDaemonSetReplicaSetCanaryLabelKey] == edsv1.ExtendedDaemonSetReplicaSetCanaryLabelValue})
 	}
 	sort.Slice(v.Pods, func(i, j int) bool {
 		a, b := v.Pods[i], v.Pods[j]
